@@ -8,5 +8,6 @@ mkdir -p .work/setup && cp spec/*.tla .work/setup/
 cd .work/setup
 for m in SeqOps Vec MCVec TraceVec; do
   java -cp /opt/veriftools/tla/tla2tools.jar:/opt/veriftools/tla/CommunityModules-deps.jar tla2sany.SANY $m.tla >$m.sany.log 2>&1 || { cat $m.sany.log; exit 1; }
+  if grep -q "Errors\|Error:" $m.sany.log; then cat $m.sany.log; exit 1; fi
 done
 echo "setup ok"
